@@ -1,11 +1,12 @@
 package wmesh
 
 import (
-	"github.com/postalsys/muti-metroo/internal/config"
 	"context"
 	"fmt"
+	"github.com/postalsys/muti-metroo/internal/config"
 	. "github.com/postalsys/muti-metroo/internal/verifsim/meshkit"
 	"net"
+	"sort"
 	"strings"
 	"time"
 
@@ -433,6 +434,16 @@ func runC11() {
 func runC14() {
 	m := DrawMesh(3, 7, []string{"ring", "diamond", "random", "chain", "tree", "star"})
 	PlaceRoutes(m, true)
+	if simrt.Chance(1, 3, "bigset") {
+		// one origin whose own table needs several announcements (and several replay groups)
+		j := simrt.Choose(len(m.Nodes), "bigorigin")
+		nd := m.Nodes[j]
+		nd.Cfg.Exit.Enabled = true
+		for k, n := 0, []int{256, 300, 520}[simrt.Choose(3, "bigsize")]; k < n; k++ {
+			nd.Cfg.Exit.Routes = append(nd.Cfg.Exit.Routes, fmt.Sprintf("10.%d.%d.%d/32", 200+j, k/250, k%250))
+		}
+		simrt.Probe("c14_origin_over_255_routes")
+	}
 	iv := m.Nodes[0].Cfg.Routing.AdvertiseInterval
 	ttl := m.Nodes[0].Cfg.Routing.RouteTTL
 	obs := WatchAdverts(m)
@@ -476,13 +487,106 @@ func runC14() {
 	if !m.WaitConnected(5 * time.Minute) {
 		simrt.Failf("mesh-did-not-reconnect", "configured peers did not reconnect after the last fault", "edges=%v", m.Edges)
 	}
-	Settle(m)
+	if simrt.Chance(1, 2, "tight") {
+		// the replays of the last reconnect are immediately followed by the
+		// observed phase: the very next periodic announcements count
+		simrt.Sleep(5 * time.Second)
+		simrt.Probe("c14_tight_after_replay")
+	} else {
+		Settle(m)
+	}
 	stableFrom := simrt.Elapsed()
+	phaseStart := stableFrom
+	// A reconnect removes the routes learned over the lost connection; what the
+	// replays do not bring back at once returns with the origins' next periodic
+	// announcements. Absence is therefore only judged one interval after the
+	// last reconnect (expiry of a live origin's routes takes far longer to show).
+	lostGraceUntil := stableFrom + iv + 10*time.Second
 	// stable phase: longer than the route TTL, sampled twice per interval
 	phase := 3*ttl + 2*iv
-	margin := 10 * time.Second
+	// time allowed for one announcement to cross the mesh: per hop link latency
+	// plus slow or starved goroutines (each freeze lasts up to 2 s)
+	margin := 10*time.Second + time.Duration(len(m.Nodes)-1)*4*time.Second
 	attributed := map[string]bool{} // origin|route for which some announcement was compared
-	for simrt.Elapsed() < stableFrom+phase {
+	lateResets := simrt.Choose(3, "late-resets")
+	// connect storms: a harness-controlled peer connects to a relay while the relay
+	// is in the middle of passing an announcement on (its write to a neighbour
+	// stalls for a moment, as writes to a busy link do). Whichever side of the
+	// relay's processing the connect lands on, the new peer must end up with that
+	// announcement: flooded to it, or contained in the replay it is sent. Judged
+	// 12 s later, and only when the next periodic announcement is further away.
+	var storms []*stormPeer
+	var stormG simrt.Group
+	stormsLeft := 0
+	if iv >= 45*time.Second {
+		stormsLeft = simrt.Choose(4, "storms")
+	}
+	var armed *stormPeer
+	m.Tap.OnFrame = append(m.Tap.OnFrame, func(ev *FrameEvent) {
+		if armed == nil || ev.Type != protocol.FrameRouteAdvertise || ev.From != m.Nodes[armed.host].Name || m.NodeByName(ev.To) == nil {
+			return
+		}
+		adv, err := protocol.DecodeRouteAdvertise(ev.Payload)
+		if err != nil || adv.OriginAgent == m.Nodes[armed.host].ID {
+			return
+		}
+		sp := armed
+		armed = nil
+		sp.origin, sp.seq = adv.OriginAgent, adv.Sequence
+		for _, r := range adv.Routes {
+			sp.keys = append(sp.keys, advRouteKey(m, r))
+		}
+		simrt.Eventf("storm: %s connects to %s while it forwards origin=%s seq=%d", fmt.Sprintf("raw%d", sp.k), ev.From, m.NameOf(sp.origin), sp.seq)
+		stormG.Go(fmt.Sprintf("storm-%d", sp.k), func() {
+			rp, err := m.AttachRawPeer(sp.host, sp.k)
+			if err != nil {
+				simrt.Eventf("storm peer %d could not attach: %v", sp.k, err)
+				return
+			}
+			sp.rp = rp
+			simrt.Probe("c14_storm_peer_attached")
+			simrt.Sleep(12 * time.Second)
+			judgeStormPeer(m, sp)
+		})
+		// the relay's write stalls while the newcomer's handshake runs
+		simrt.Sleep(time.Duration(20+simrt.Choose(400, "stall-ms")) * time.Millisecond)
+	})
+	var hosts []int
+	for i, nd := range m.Nodes {
+		if len(nd.Cfg.Listeners) > 0 {
+			hosts = append(hosts, i)
+		}
+	}
+	for simrt.Elapsed() < phaseStart+phase {
+		if stormsLeft > 0 && armed == nil && len(hosts) > 0 && simrt.Chance(1, 2, "storm-now") {
+			stormsLeft--
+			armed = &stormPeer{host: hosts[simrt.Choose(len(hosts), "storm-host")], k: 20 + len(storms)}
+			storms = append(storms, armed)
+		}
+		if lateResets > 0 && simrt.Elapsed() < phaseStart+phase/3 && simrt.Chance(1, 3, "late-reset-now") {
+			// a peer connect (hence full-table replays) between two periodic
+			// announcements; announcements that began before the mesh was whole
+			// again are not demanded of anyone
+			lateResets--
+			var live []*simnetLink
+			for _, l := range m.Net.Links() {
+				if l.Kind == "peer" && !l.Dead() {
+					live = append(live, l)
+				}
+			}
+			if len(live) > 0 {
+				l := live[simrt.Choose(len(live), "link")]
+				simrt.Eventf("reset link %d %s-%s (observed phase)", l.ID, l.DialNode, l.AccNode)
+				l.Reset()
+				simrt.Probe("c14_link_reset_in_observed_phase")
+				if !m.WaitConnected(5 * time.Minute) {
+					simrt.Failf("mesh-did-not-reconnect", "configured peers did not reconnect after the last fault", "edges=%v", m.Edges)
+				}
+				simrt.Sleep(5 * time.Second)
+				stableFrom = simrt.Elapsed()
+				lostGraceUntil = stableFrom + iv + 10*time.Second
+			}
+		}
 		simrt.Sleep(iv / 2)
 		now := simrt.Elapsed()
 		for j, od := range m.Nodes {
@@ -494,6 +598,17 @@ func runC14() {
 			type ann struct {
 				first, last time.Duration
 				keys        []string
+				to          map[string]bool
+			}
+			// the origin's agent neighbours: an announcement is what the origin
+			// writes to all of them; what it writes to one peer that has just
+			// connected (its own routes under a fresh sequence number, as part of
+			// the full-table replay) is meant for that peer only
+			nbrs := 0
+			for i := range m.Nodes {
+				if i != j && EdgeSet(m)[[2]int{i, j}] {
+					nbrs++
+				}
 			}
 			anns := map[uint64]*ann{}
 			var seqs []uint64
@@ -503,12 +618,15 @@ func runC14() {
 				}
 				a := anns[o.AdvSeq]
 				if a == nil {
-					a = &ann{first: o.At, last: o.At}
+					a = &ann{first: o.At, last: o.At, to: map[string]bool{}}
 					for _, r := range o.Routes {
 						a.keys = append(a.keys, advRouteKey(m, r))
 					}
 					anns[o.AdvSeq] = a
 					seqs = append(seqs, o.AdvSeq)
+				}
+				if m.NodeByName(o.To) != nil {
+					a.to[o.To] = true
 				}
 				if o.At < a.first {
 					a.first = o.At
@@ -524,6 +642,10 @@ func runC14() {
 			for _, sq := range seqs {
 				a := anns[sq]
 				if a.first < stableFrom || a.last > now-margin {
+					continue
+				}
+				if len(a.to) < nbrs {
+					simrt.Probe("c14_targeted_replay_of_own_routes")
 					continue
 				}
 				for _, k := range a.keys {
@@ -560,6 +682,9 @@ func runC14() {
 				}
 				for _, w := range want {
 					at, ok := newest[w]
+					if !ok && now < lostGraceUntil {
+						continue
+					}
 					if !ok {
 						simrt.Failf("live-origin-route-lost", "route of a live connected announcing origin disappeared", "%s lost %s of %s at t=%v (stable since %v, ttl %v)", nd.Name, w, od.Name, now, stableFrom, ttl)
 					}
@@ -577,6 +702,9 @@ func runC14() {
 		}
 		simrt.Probe("c14_stable_sample")
 	}
+	armed = nil
+	stormG.Wait()
+	checkStormPeers(m, storms)
 	// The stable phase spans several announcement intervals: every route of every
 	// origin must have been matched to an announcement on the wire at least once,
 	// otherwise the comparison above was vacuous for it.
@@ -602,6 +730,140 @@ func runC14() {
 }
 
 type simnetLink = simnet.Link
+
+type stormPeer struct {
+	host, k int
+	rp      *RawPeer
+	origin  identity.AgentID
+	seq     uint64
+	keys    []string
+}
+
+// judgeStormPeer: 12 s after it connected to a relay that was in the middle of
+// forwarding (origin, seq), the peer holds an announcement of that origin with
+// that sequence number or a later one for every route the announcement carried.
+func judgeStormPeer(m *Mesh, sp *stormPeer) {
+	if sp.rp == nil || sp.rp.Closed {
+		return
+	}
+	got := map[string]uint64{}
+	for _, f := range sp.rp.Received {
+		if f.Type != protocol.FrameRouteAdvertise {
+			continue
+		}
+		adv, err := protocol.DecodeRouteAdvertise(f.Payload)
+		if err != nil || adv.OriginAgent != sp.origin {
+			continue
+		}
+		for _, r := range adv.Routes {
+			k := advRouteKey(m, r)
+			if adv.Sequence > got[k] || got[k] == 0 {
+				got[k] = adv.Sequence
+			}
+		}
+	}
+	simrt.Probe("c14_storm_peer_judged")
+	for _, k := range sp.keys {
+		if s, ok := got[k]; !ok || s < sp.seq {
+			simrt.Failf("connected-peer-missed-announcement", "a peer that connected to a relay while it was forwarding an announcement got neither that announcement nor a replay containing it", "%s connected to %s while it forwarded origin=%s seq=%d; 12 s later it has %s at sequence %d (present=%v)", sp.rp.Name, m.Nodes[sp.host].Name, m.NameOf(sp.origin), sp.seq, k, s, ok)
+		}
+	}
+}
+
+// checkStormPeers: a peer that is connected to relay R holds, for every route R
+// has learned from another origin, an announcement of that route at least as
+// recent as R's copy (it was flooded to the peer, or was part of the replay the
+// peer got on connecting). Judged against what R held half a minute earlier, so
+// that an announcement in flight is never counted against anyone.
+func checkStormPeers(m *Mesh, storms []*stormPeer) {
+	type rkey struct {
+		origin identity.AgentID
+		key    string
+	}
+	snapshot := func(h int) map[rkey]uint64 {
+		out := map[rkey]uint64{}
+		for _, r := range m.RoutesAt(h) {
+			if r.Origin == m.Nodes[h].ID {
+				continue
+			}
+			k := rkey{r.Origin, r.Table + "|" + r.Key}
+			if r.Seq > out[k] {
+				out[k] = r.Seq
+			}
+		}
+		return out
+	}
+	before := map[int]map[rkey]uint64{}
+	for _, sp := range storms {
+		if sp.rp != nil && !sp.rp.Closed && before[sp.host] == nil {
+			before[sp.host] = snapshot(sp.host)
+		}
+	}
+	if len(before) == 0 {
+		return
+	}
+	// what the relay held at this instant must be with the peer within 30 s
+	// (link latency, slow or starved goroutines included)
+	type lag struct {
+		sp   *stormPeer
+		what string
+		got  uint64
+		want uint64
+	}
+	var lagging []lag
+	for waited := 0; waited <= 30; waited += 3 {
+		simrt.Sleep(3 * time.Second)
+		lagging = lagging[:0]
+		for _, sp := range storms {
+			if sp.rp == nil || sp.rp.Closed {
+				continue
+			}
+			got := map[rkey]uint64{}
+			for _, f := range sp.rp.Received {
+				if f.Type != protocol.FrameRouteAdvertise {
+					continue
+				}
+				adv, err := protocol.DecodeRouteAdvertise(f.Payload)
+				if err != nil {
+					continue
+				}
+				for _, r := range adv.Routes {
+					k := rkey{adv.OriginAgent, advRouteKey(m, r)}
+					if adv.Sequence > got[k] {
+						got[k] = adv.Sequence
+					}
+				}
+			}
+			var keys []string
+			byStr := map[string]rkey{}
+			for k := range before[sp.host] {
+				s := m.NameOf(k.origin) + " " + k.key
+				keys = append(keys, s)
+				byStr[s] = k
+			}
+			sort.Strings(keys)
+			for _, s := range keys {
+				k := byStr[s]
+				if got[k] < before[sp.host][k] {
+					lagging = append(lagging, lag{sp, s, got[k], before[sp.host][k]})
+				}
+			}
+		}
+		if len(lagging) == 0 {
+			break
+		}
+	}
+	simrt.Probe("c14_storm_peer_compared")
+	if len(lagging) > 0 {
+		l := lagging[0]
+		simrt.Failf("connected-peer-missed-announcement", "a peer connected to a relay still lacks, 30 s later, an announcement the relay had already stored", "%s (connected to %s) has %s at sequence %d; %s held sequence %d more than 30 s ago (%d routes lag)", l.sp.rp.Name, m.Nodes[l.sp.host].Name, l.what, l.got, m.Nodes[l.sp.host].Name, l.want, len(lagging))
+	}
+	for _, sp := range storms {
+		if sp.rp != nil {
+			sp.rp.Close()
+		}
+	}
+}
 
 // advRouteKey names a route carried by an announcement the way RoutesAt names
 // stored routes ("table|key").
@@ -668,7 +930,7 @@ func runC06() {
 				}
 				if longRoutes {
 					name = fmt.Sprintf("h%d.n%d.example.com", k, j)
-					name = fmt.Sprintf("%s.%s.%s.%s", string(make63('a'+byte(k%26))), string(make63('b'+byte(k%20))), string(make63('c'+byte(k%20))[:40]), name)
+					name = fmt.Sprintf("%s.%s.%s.%s", string(make63('a'+byte(k%26))), string(make63('b'+byte(k%20))), string(make63('c' + byte(k%20))[:40]), name)
 				}
 				if k%5 == 1 {
 					name = "*." + name
